@@ -1,11 +1,11 @@
 # C12 — layer resolver: held layers stay usable, released layers are reclaimed
 PROPS["C12"] = dict(
     props_file="Properties/C12.v",
-    harnesses=[dict(cmd="resolver", mod="root", model="Model.Resolver", quick=130, thorough=6000, shard=44, coq_jobs=12, race=120,
+    harnesses=[dict(cmd="resolver", mod="root", model="Model.Resolver", quick=110, thorough=6000, shard=37, coq_jobs=12, race=120,
                     require=["op.start", "op.step", "op.step.fail", "op.done", "op.close", "op.release.again", "op.expl", "op.expb",
                              "op.use.held", "op.refresh.ok", "op.refresh.err", "op.refresh.size", "op.probe.held", "op.wake", "pause.1", "pause.3", "pause.4", "result.blocked", "result.err",
                              "result.ret.fresh", "result.ret.shared", "result.use.closed", "result.use.released-open"]),
-               dict(cmd="fsmount", mod="root", model="Model.FsMount", quick=70, thorough=3000, shard=35, coq_jobs=12, race=150,
+               dict(cmd="fsmount", mod="root", model="Model.FsMount", quick=60, thorough=3000, shard=30, coq_jobs=12, race=150,
                     require=["op.mount", "op.check.mounted", "op.check.refresh.ok", "op.check.refresh.err", "op.check.refresh.size", "op.probe.mounted", "op.unmount", "op.unmount.unknown", "op.use.mounted",
                              "op.expl", "op.expb", "result.mount.ok", "result.mount.err", "result.check.err"])],
     rule="random interleavings of Resolve (suspended inside each external call: connectivity check, registry, metadata store; outcome "
